@@ -33,13 +33,13 @@ use model::{Cause, MFile, Tree};
 
 // ---- confirmed defects on the unchanged tree, excluded by construction (see report) ----------
 /// Update File on a zero-line file yields a spurious leading blank line ("" + "+x" => "\nx").
-pub const EXCLUDE_KNOWN_UPDATE_EMPTY_FILE: bool = true;
+pub const EXCLUDE_KNOWN_UPDATE_EMPTY_FILE: bool = false;
 /// Updating a file with mixed CRLF/LF endings rewrites every line ending to CRLF.
 pub const EXCLUDE_KNOWN_MIXED_NORMALISED: bool = true;
 /// `*** Add File` with exactly one empty content line ("+") creates an empty file, not "\n".
-pub const EXCLUDE_KNOWN_ADD_SINGLE_BLANK_LINE: bool = true;
+pub const EXCLUDE_KNOWN_ADD_SINGLE_BLANK_LINE: bool = false;
 /// Delete File x; Add File x/y; <failure>: rollback cannot restore x (x is now a directory).
-pub const EXCLUDE_KNOWN_DIR_CONFLICT_ROLLBACK: bool = true;
+pub const EXCLUDE_KNOWN_DIR_CONFLICT_ROLLBACK: bool = false;
 
 const SIG_EMPTY: &str = "exact|update_empty_file|leading_blank_line";
 const SIG_MIXED: &str = "style|update_mixed_endings|normalised_to_crlf";
